@@ -307,7 +307,13 @@ func checkC07(c *Ctx) {
 		removeRoot := paramObj(info, fi.Decl, 0)
 		var first *ast.CallExpr
 		for _, call := range callsIn(fi.Decl.Body, false) {
-			if fn := calleeOf(info, call); fn != nil && isRepoFunc(fn, "tree", "Node", "delNeighbor") && first == nil {
+			fn := calleeOf(info, call)
+			if fn == nil || first != nil {
+				continue
+			}
+			isDel := func(h *types.Func) bool { return isRepoFunc(h, "tree", "Node", "delNeighbor") }
+			// the contraction itself, or the unexported helper it was moved into
+			if isDel(fn) || (!fn.Exported() && fn.Pkg() == fi.Obj.Pkg() && fn != fi.Obj && c.reaches(fn, isDel, 2, map[*types.Func]bool{})) {
 				first = call
 			}
 		}
